@@ -366,7 +366,7 @@ def run_rt(case, v):
     c05 = setup_rt()
     res = c05.run_rt(case, v)
     p = case['prog']
-    tempo = any(op[0] == 'tempo' for r in p['routines'].values()
+    tempo = any(op[0] in ('tempo', 'beats_add') for r in p['routines'].values()
                 for op in r['body'])
     res['nontrivial'] = bool(tempo and 'jitter' in res['labels'])
     return res
@@ -383,6 +383,6 @@ def stages(ctx):
     return [
         Stage('exact', run_case, cases(True), quick=1500, thorough=15000),
         Stage('float', run_float, cases(False), quick=500, thorough=5000),
-        Stage('rt', run_rt, c05.rt_cases(tempo_ops=True), quick=100,
-              thorough=1000),
+        Stage('rt', run_rt, c05.rt_cases(tempo_ops=True, beats_ops=True),
+              quick=100, thorough=1000),
     ]
